@@ -21,6 +21,7 @@ import (
 	"path/filepath"
 	"regexp"
 	"strings"
+	"time"
 )
 
 // ---- the path predicates of /verif/specs/paths.spec, as Go regular expressions (used by the original checks;
@@ -112,7 +113,11 @@ func check(title string, cs []contract, bound string, run func(t *T)) {
 	for _, s := range stale {
 		t.Fail("%s", s)
 	}
+	start := time.Now()
 	run(t)
+	if timing {
+		fmt.Fprintf(os.Stderr, "%7.3fs %s\n", time.Since(start).Seconds(), name[:min(len(name), 110)])
+	}
 	results = append(results, r)
 	o := outcome{title: title, bound: bound, cases: r.Cases, failed: r.Failed, stale: len(stale) > 0}
 	if len(r.Examples) > 0 {
@@ -123,7 +128,7 @@ func check(title string, cs []contract, bound string, run func(t *T)) {
 	}
 }
 
-var coverageMode bool
+var coverageMode, timing bool
 
 func main() {
 	n := flag.Int("len", 8, "scale of the bounds (maximal string length of the basic enumerations)")
@@ -131,6 +136,7 @@ func main() {
 	repo := flag.String("repo", "/repo", "the verified repository (scanned for the //@ trusted lines of zz_verif_contracts*.go)")
 	onlyF := flag.String("only", "", "run only the checks whose name matches this regexp")
 	flag.IntVar(&maxExamples, "examples", 4, "maximal number of counterexamples kept per check")
+	flag.BoolVar(&timing, "timing", false, "print the run time of every check to stderr")
 	cov := flag.Bool("coverage", false, "print COVERAGE.md instead of running the checks")
 	flag.Parse()
 	L = *n
@@ -161,6 +167,8 @@ func main() {
 	checksProto()
 	checksImageV1()
 	checksExtra()
+	checksWriter()
+	checksNetrc()
 	checksPure()
 
 	if coverageMode {
